@@ -30,6 +30,7 @@ func rollLog(fr *frame, fn *ssa.Function, args []value) (value, bool) {
 		return nil, false
 	}
 	src := args[0].(*value)
+	px.drawBound()
 	t := px.newSym("draw", fmt.Sprintf("draw%d", px.nDraw), 64)
 	face := 1 + px.nDraw%2
 	if face > n {
@@ -78,6 +79,7 @@ func rollContract(fr *frame, fn *ssa.Function, args []value) (value, bool) {
 		return nil, false
 	}
 	src := args[0].(*value)
+	px.drawBound()
 	t := px.newSym("draw", fmt.Sprintf("draw%d", px.nDraw), 64)
 	px.nDraw++
 	px.drawLog = append(px.drawLog, drawRec{recv: src, sym: t})
@@ -85,4 +87,12 @@ func rollContract(fr *frame, fn *ssa.Function, args []value) (value, bool) {
 	px.assume(a.Cmp(OpUlt, t, n))
 	_ = k
 	return wrapInt(a.Bin(OpAdd, t, a.Const(64, 1)), k), true
+}
+
+// drawBound ends a path that would roll more dice than the harness's stated
+// bound (vMaxDraws); such paths are outside the claim, like a failed assumption.
+func (px *pathCtx) drawBound() {
+	if px.maxDraws > 0 && px.nDraw >= px.maxDraws {
+		px.abort("assume", "more than %d dice on this path (stated bound)", px.maxDraws)
+	}
 }
